@@ -239,6 +239,21 @@ pub fn coverage(ctx: &mut Ctx, o: &Outcome, tx: &Tx) {
     if !tx.aux().is_null() {
         ctx.bucket("feature.aux-data");
     }
+    // entry points the history went through (from the recorded calls that answered Ok)
+    for (needle, name) in [
+        ("tb.add_mint_asset n", "op.tb.add_mint_asset"),
+        ("tb.set_mint_asset n", "op.tb.set_mint_asset"),
+        ("tb.add_mint_asset_and_output n", "op.tb.add_mint_asset_and_output"),
+        ("tb.add_mint_asset_and_output_min_required_coin n", "op.tb.add_mint_asset_and_output_min_required_coin"),
+        ("tb.set_mint n", "op.tb.set_mint"),
+    ] {
+        if o.log.iter().any(|l| l.starts_with(needle) && l.ends_with("-> Ok")) {
+            ctx.bucket(name);
+        }
+    }
+    if o.log.iter().any(|l| l == "metadata helpers used") {
+        ctx.bucket("op.metadata-helpers");
+    }
     match o.fee_mode {
         FeeMode::Unspecified => ctx.bucket("fee.unspecified"),
         FeeMode::MinFee(_) => ctx.bucket("fee.set_min_fee"),
